@@ -90,6 +90,11 @@ def run_optimal(case):
         G = gcall(vol.free_energy_graph, max_energy_threshold=thr, diagonal=diag)
         if set(map(tuple, G.nodes)) != set(adj):
             raise Violation('graph-nodes', 'node set differs from the admissible voxels')
+        n_edges = G.number_of_edges()
+        for pm, ps, pe in case.get('pre_queries', []):  # earlier queries on the same graph object must not disturb later ones
+            gcall(vol.optimal_path, F_graph=G, start=adm[ps % len(adm)], stop=adm[pe % len(adm)], method=pm, allow=(nx.NetworkXNoPath,))
+        if set(map(tuple, G.nodes)) != set(adj) or G.number_of_edges() != n_edges:
+            raise Violation('graph-unchanged-by-queries', f'graph had {len(adj)} nodes / {n_edges} edges, after {case.get("pre_queries")} it has {G.number_of_nodes()} / {G.number_of_edges()}')
         res = gcall(vol.optimal_path, F_graph=G, start=start, stop=stop, method=method, allow=(nx.NetworkXNoPath,))
     best = best_cost(adj, F, start, stop, method, thr)
     labels = [method, 'diagonal' if diag else 'faces-only']
@@ -219,7 +224,8 @@ def optimal_cases(draw, tier):
     return {'lattice': draw(gen.lattices(families=['cubic', 'orthorhombic', 'triclinic'], orients=['lower'])), 'F': draw(st.one_of(grids(), grids(), ring_grids())),
             'threshold': draw(st.sampled_from([1e7, 1e7, 1e20, 3.0, 4.5])), 'diagonal': draw(st.sampled_from([True, True, False])),
             'method': draw(st.sampled_from(METHODS)), 'start': draw(st.integers(0, 124)), 'stop': draw(st.integers(0, 124)),
-            'default_graph': draw(st.sampled_from([False, False, True]))}
+            'default_graph': draw(st.sampled_from([False, False, True])),
+            'pre_queries': draw(st.lists(st.tuples(st.sampled_from(['minmax-energy', 'minmax-energy', 'dijkstra']), st.integers(0, 124), st.integers(0, 124)).map(list), max_size=2))}
 
 
 @st.composite
@@ -264,7 +270,8 @@ def two_route_cases(draw, tier):
     v = v[-rot:] + v[:-rot] if rot else v
     return {'lattice': draw(gen.lattices(families=['cubic'], orients=['lower'])), 'F': np.array(v).reshape(shape).tolist(), 'threshold': 1e7,
             'diagonal': draw(st.booleans()), 'method': draw(st.sampled_from(METHODS)), 'start': rot, 'stop': (rot + k) % n,
-            'default_graph': draw(st.booleans())}
+            'default_graph': draw(st.booleans()),
+            'pre_queries': draw(st.lists(st.tuples(st.sampled_from(['minmax-energy', 'minmax-energy', 'dijkstra']), st.integers(0, 8), st.integers(0, 8)).map(list), max_size=2))}
 
 
 SUBS = [
